@@ -173,4 +173,4 @@ def rule(fx, ck, name="R5.array-length"):
                                 if not ok:
                                     ck.finding(name, "%s/default/%s" % (name, fd["name"]), F.short_span(s[3]),
                                                "the Default value of %s.%s is not a constant" % (a["path"], fd["name"]))
-    ck.anchor(nsites >= 5, "Vec::into_boxed_slice hand-out sites in src/ffi (found %d, hand count 5)" % nsites)
+    ck.anchor(nsites >= 3, "Vec::into_boxed_slice hand-out sites in src/ffi (found %d; hand count 5, floor 3 so that merging the two string-array producers into one helper does not alarm)" % nsites)
